@@ -17,7 +17,7 @@ def rule_acceptance(repo, rep):
   rep.rule(R, 's_best starts as the loss at the prior; (M_best, s_best) are '
            'assigned together only under cur_s < s_best; M is replaced only '
            'by a non-None M_best; components_ is built from M')
-  f = repo.get_func('lsml._BaseLSML._fit')
+  f = astutil.inline_helpers(repo, repo.get_func('lsml._BaseLSML._fit'))
   rep.analysed(f)
   stores = [n for n in ast.walk(f.node) if isinstance(n, ast.Assign) and
             ast.unparse(n.targets[0]) == 'self.components_']
@@ -105,7 +105,7 @@ def rule_stopping(repo, rep):
   R = 'R-GUARD:lsml-stopping-criteria'
   rep.rule(R, 'the main loop is left early only on the documented criteria: '
            'gradient norm below tol, or no improving step (M_best is None)')
-  f0 = repo.get_func('lsml._BaseLSML._fit')
+  f0 = astutil.inline_helpers(repo, repo.get_func('lsml._BaseLSML._fit'))
   # roles: the gradient (result of self._gradient), its norm, the metric
   # handed to components_from_metric and the best candidate it is replaced by
   roles = {}
@@ -164,7 +164,7 @@ def rule_spd_floor(repo, rep):
   R = 'R-FORM:lsml-spd-floor'
   rep.rule(R, 'every candidate metric is V Diag(max(w, eps)) V^T with '
            '(w, V) = eigh(step result) and eps > 0')
-  f = repo.get_func('lsml._BaseLSML._fit')
+  f = astutil.inline_helpers(repo, repo.get_func('lsml._BaseLSML._fit'))
   # evaluate the two statements symbolically
   cands = [n for n in ast.walk(f.node) if isinstance(n, ast.Assign) and
            isinstance(n.targets[0], ast.Name) and
@@ -302,9 +302,9 @@ def rule_formulas(repo, rep):
            'v_cd v_cd^T in _gradient are the derivatives of that loss term '
            'with respect to d_ab and d_cd (derived symbolically), plus '
            'M0^-1 - M^-1')
-  fl0 = repo.get_func('lsml._BaseLSML._comparison_loss')
-  fg0 = repo.get_func('lsml._BaseLSML._gradient')
-  ft = repo.get_func('lsml._BaseLSML._total_loss')
+  fl0 = astutil.inline_helpers(repo, repo.get_func('lsml._BaseLSML._comparison_loss'))
+  fg0 = astutil.inline_helpers(repo, repo.get_func('lsml._BaseLSML._gradient'))
+  ft = astutil.inline_helpers(repo, repo.get_func('lsml._BaseLSML._total_loss'))
 
   def mask_roles(fn, left, right):
     r = {}
